@@ -10,7 +10,7 @@ from ..terms import A, C, F, V, call, conj, TRUE, CUT, show_program, show_term
 
 ID = 'C08'
 LEVEL = 'model_checking'
-RULE = ('every history of depth <= D over 26 events (load of a script S9 that defines predicates named like API functions; load of a self-recursive predicate S7 whose base case comes from another script S8 or from a dynamic fact; 17 + start / step / close of a call p(X) that stays suspended across the other events and must keep the resolution it had when it was made), from the empty engine and from 4 non-initial states (combined definitions, a Python predicate plus a script, facts between two loads, the recursive script), plus a 12-event core one step deeper, plus the full alphabet from the empty engine with every script loaded through load_script_from_file from ONE path that is rewritten before each load, plus the full alphabet (from the state Python p/1 + S1) with every Python predicate registered as a callable OBJECT that is false in a boolean context, plus the full alphabet with the suspended call made as a META-call (call(p(X)) from the empty engine, call(p, X) from the state with facts between two loads) - resolved when made like any call, plus the full alphabet from the empty engine in a process that turns warnings into errors: register_function for p with inferred / explicit (p/2) / variadic '
+RULE = ('every history of depth <= D over 28 events (re-registration of p (variadic, and arity 1) with ANOTHER function whose answers carry another marker; load of a script S9 that defines predicates named like API functions; load of a self-recursive predicate S7 whose base case comes from another script S8 or from a dynamic fact; 17 + start / step / close of a call p(X) that stays suspended across the other events and must keep the resolution it had when it was made), from the empty engine and from 4 non-initial states (combined definitions, a Python predicate plus a script, facts between two loads, the recursive script), plus a 13-event core one step deeper, plus the full alphabet from the empty engine with every script loaded through load_script_from_file from ONE path that is rewritten before each load, plus the full alphabet (from the state Python p/1 + S1) with every Python predicate registered as a callable OBJECT that is false in a boolean context, plus the full alphabet with the suspended call made as a META-call (call(p(X)) from the empty engine, call(p, X) from the state with facts between two loads) - resolved when made like any call, plus the full alphabet from the empty engine in a process that turns warnings into errors: register_function for p with inferred / explicit (p/2) / variadic '
         'arity and for q/1; (plus loads under every tight stack: from 4 start states each of 4 scripts, overwrite on and off, under every recursion limit from the caller\'s depth to +39: raises and every answer is unchanged, or returns and the answers are the model\'s) (plus the ORDER family: 0..2 facts x 4 shapes of definition - generator function, plain function returning an iterator, plain function returning a generator, callable object - x 5 effects of calling it x 3 registrations x 3 ways of asking x 3 ways of consuming x bound/unbound argument: the facts are answered before the definition is started, a call closed after a fact answer never starts it) load of script S1 (p/1 facts), S2 (p/1 with a cut in its first clause), S3 (p/2 and q(X) :- '
         'p(X)), S6 (names that collide with context keys: once_1/0, once_1/1, p_n/1, call_n/0, foo_1/0 next to foo/1) each '
         'with overwrite on and off; load of a text that is not Python (S4) and of a text that defines p_1 and q_1 and then '
@@ -55,8 +55,11 @@ EVENTS = [('reg', 'p', 1, None), ('reg', 'p', 2, 2), ('reg', 'p', 'n', -1), ('re
           # a call p(X) that stays suspended while later events happen (it was resolved when made)
           ('start',), ('step',), ('close',), ('drain',),
           ('load', 'S7', True), ('load', 'S7', False), ('load', 'S8', False), ('assert', F('up', A('x'), A('zero'))),
-          ('load', 'S9', False)]
-CORE_EVENTS = [0, 2, 4, 5, 7, 9, 13, 14, 16, 17, 18, 20]
+          ('load', 'S9', False),
+          # the same registrations again with ANOTHER function (its answers carry another marker): a call made after
+          # a re-registration is answered by the new function, at every arity, also at arities called before
+          ('reg', 'p', 'n', -1, 'b'), ('reg', 'p', 1, None, 'b')]
+CORE_EVENTS = [0, 2, 4, 5, 7, 9, 13, 14, 16, 17, 18, 20, 26]
 # histories also start from non-initial states (event prefixes executed first)
 PREFIXES = [(), (5, 7), (0, 5), (4, 14, 5), (21,)]   # nothing | S1+S2 combined | python p/1 + S1 | S1, fact p(x), S1 again
 QUERIES = [('p', 0), ('p', 1), ('p', 2), ('p', 3), ('q', 1), ('once_1', 0), ('once_1', 1), ('p_n', 1), ('call_n', 0),
@@ -70,7 +73,7 @@ def event_name(ev):
         return {'start': 'start a call p(X) and take its first answer', 'step': 'next answer of the suspended call', 'close': 'close the suspended call',
                 'drain': 'take all remaining answers of the suspended call'}[ev[0]]
     if ev[0] == 'reg':
-        return 'register_function(%r, f%s%s)' % (ev[1], ev[2], '' if ev[3] is None else ', arity=%d' % ev[3])
+        return 'register_function(%r, f%s%s%s)' % (ev[1], ev[2], ev[4] if len(ev) > 4 else '', '' if ev[3] is None else ', arity=%d' % ev[3])
     if ev[0] == 'load':
         return 'load(%s, overwrite=%s)' % (ev[1], ev[2])
     if ev[0] == 'badload':
@@ -80,13 +83,13 @@ def event_name(ev):
     return 'clear()'
 
 
-def marker(name, n):
-    return A('py_%s_%s' % (name, n))
+def marker(name, n, ver=''):
+    return A('py_%s_%s%s' % (name, n, ver))
 
 
-def py_pred(yp, name, n):
+def py_pred(yp, name, n, ver=''):
     """Python predicate: unifies its FIRST argument (if any) with a marker atom"""
-    m = yp.atom('py_%s_%s' % (name, n))
+    m = yp.atom('py_%s_%s%s' % (name, n, ver))
     if n == 'n':
         def pred(*args):
             if args:
@@ -129,8 +132,8 @@ class FalsyCallable:
         return Obj()
 
 
-def py_model(name, n):
-    m = marker(name, n)
+def py_model(name, n, ver=''):
+    m = marker(name, n, ver)
 
     def d(ref, args, env):
         if n != 'n' and len(args) != n:
@@ -161,7 +164,7 @@ def _load(yp, text, overwrite):
 
 def do_impl(yp, ev, texts):
     if ev[0] == 'reg':
-        fn = py_pred(yp, ev[1], ev[2])
+        fn = py_pred(yp, ev[1], ev[2], *ev[4:])
         if ev[3] is None:
             yp.register_function(ev[1], fn)
         else:
@@ -184,7 +187,7 @@ def do_impl(yp, ev, texts):
 
 def do_ref(ref, ev):
     if ev[0] == 'reg':
-        ref.register((ev[1], ev[2]), py_model(ev[1], ev[2]))
+        ref.register((ev[1], ev[2]), py_model(ev[1], ev[2], *ev[4:]))
     elif ev[0] == 'load':
         ref.consult(SCRIPTS[ev[1]], ev[2])
     elif ev[0] == 'badload':
